@@ -6,7 +6,7 @@
    the Go runtime reclaims a goroutine the transition system calls finished, are
    runtime facts outside a Gallina model; they are exercised by the harness
    (goroutine census, timeout ordering). *)
-From BV Require Import Base Term Expr Datalog Authz DatalogProofs AuthzProofs ChanLTS ChanLTSProofs.
+From BV Require Import Base Term Expr Datalog Authz DatalogProofs AuthzProofs ChanLTS ChanLTSProofs TableProofs.
 
 (* (a) success is reported only for a world closed under one more round, below the fact limit *)
 Theorem C11_ok_is_fixpoint : forall rx lim rules facts fs,
@@ -69,6 +69,12 @@ Theorem C11_old_protocol_strands :
   exists s, reachable_old s /\ caller_returned s /\ ~ exists s', steps_old s s' /\ all_finished s'.
 Proof. exact old_protocol_strands. Qed.
 
+(* the tie of the transition system to the source, regenerated on this run: the
+   result channel is buffered, the combination channel is not, and every send
+   on it can also take the stop signal *)
+Theorem C11_channel_protocol_pinned : channel_protocol_stmt.
+Proof. exact channel_protocol_pinned. Qed.
+
 Example C11_limit_examples := (chain_hits_max_facts, chain_hits_max_iterations).
 Example C11_lts_nonvacuous := nonvacuous_reachable.
 
@@ -82,3 +88,4 @@ Print Assumptions C11_no_stranded.
 Print Assumptions C11_no_blocked_forever.
 Print Assumptions C11_no_infinite_run.
 Print Assumptions C11_old_protocol_strands.
+Print Assumptions C11_channel_protocol_pinned.
